@@ -59,6 +59,7 @@ def run(ctx):
             stats["export"].append({"workload": w, "bidir": bidir, "schedules": len(part), "model_predicts_violation": predicted_bad})
             scen.extend(part)
         log("[C12] %s: %d schedules exported" % (drv, len(scen)))
+        predicted = [('"mis":true' in x or '"panic":true' in x) for x in scen]
         sp = os.path.join(wd, "scen-%s.ndjson" % drv)
         open(sp, "w").write("\n".join(scen) + "\n")
         tp = os.path.join(wd, "trace-%s.ndjson" % drv)
@@ -92,7 +93,11 @@ def run(ctx):
                 ev = vlib.read_ndjson(tpx)
                 for b in v["bad"]:
                     evs = [e for e in ev[max(0, b["line"] - 40):b["line"]] if e.get("sc") == b["sc"]]
-                    sig = {"assembler": b["asm"], "reason": b["reason"], "op": b["op"]}
+                    sig = {"assembler": b["asm"], "reason": b["reason"], "op": b["op"], "phase": what}
+                    if what == "controlled":
+                        # does PoolConc.tla (code shape) predict, for this very schedule, that a packet is processed on a
+                        # connection object recycled since its lookup?  (the free-running phase has no schedule to ask)
+                        sig["model_predicts_stale_connection_use"] = bool(predicted[b["sc"] - 1])
                     if b["reason"] == "data-race":
                         e = ev[b["line"] - 1]
                         sig["pair"] = "%s | %s" % (e.get("first"), e.get("second"))
